@@ -263,3 +263,147 @@ def label_conditions(prog, mod, fi, label, az_factory, pos=1):
             else:
                 other = True
     return (G.f_or(*f_lab) if f_lab else G.F), (G.f_or(*f_empty) if f_empty else G.F), other
+
+
+class Via:
+    """Runs another property's rule module and forwards the obligations `keep(rule, key)` selects, re-keyed under this run."""
+
+    def __init__(self, run, tag, keep, prefix="via"):
+        self._run, self._tag, self._keep, self._prefix = run, tag, keep, prefix
+        self.prog, self.tier, self.selftest = run.prog, run.tier, getattr(run, "selftest", False)
+        self.extra = {}
+        self.analysed = {}
+        self.prop = run.prop
+        self.n = 0
+
+    def ob(self, rule, key, ok, where, what, detail="", mech=""):
+        if self._keep(rule, key):
+            self.n += 1
+            return self._run.ob(f"{self._prefix}-{self._tag}.{rule}", key, ok, where, what, detail, mech)
+        return bool(ok)
+
+    def floor(self, rule, n):
+        pass
+
+    def note(self, k, v):
+        pass
+
+    def assume(self, text):
+        self._run.assume(text)
+
+    def exempt(self, key, reason, condition):
+        self._run.exempt(key, reason, condition)
+
+
+def delegate(run, tag, keep, floor=1, prefix="via"):
+    """forward the selected obligations of rules/<tag>.py; the anchor fails when fewer than `floor` were produced"""
+    import importlib
+
+    from ..model import need
+    via = Via(run, tag, keep, prefix)
+    importlib.import_module(f"mdstatic.rules.{tag}").check(via)
+    if not run.failures():
+        need(via.n >= floor, f"anchor: {tag} contributed {via.n} obligations, fewer than the {floor} confirmed on the reference tree")
+    return via.n
+
+
+_MRN = {}
+
+
+def may_return_nodes(prog, fi):
+    """can a result of `fi` contain a Node?  (a Node construction is reachable from it, or its return annotation names Node).
+    Memoising a function for which this is false - a predicate, a bytes -> bytes normaliser - is not observable."""
+    from ..model import call_graph, own_nodes, reachable
+    if id(prog) not in _MRN:
+        _MRN.clear()
+        _MRN[id(prog)] = (call_graph(prog), {})
+    edges, memo = _MRN[id(prog)]
+    if fi not in memo:
+        ret = getattr(fi.node, "returns", None)
+        hit = ret is not None and "Node" in ast.unparse(ret)
+        if not hit:
+            for g in reachable(edges, [fi]):
+                nodes = ast.walk(g.node.body) if isinstance(g.node, ast.Lambda) else own_nodes(g.node)
+                if any(isinstance(n, ast.Call) and prog.is_node_ctor(g.module, g, n) for n in nodes):
+                    hit = True
+                    break
+        memo[fi] = hit
+    return memo[fi]
+
+
+def check_not_memoised(run, rule, roots, what):
+    """No function reachable from `roots` (FuncInfo list) carries a caching decorator: a memoised helper hands out the SAME Node
+    objects (or lists of them) again, and the engine shifts / re-parents hits in place."""
+    from ..effects import CACHE_DECORATORS
+    from ..model import call_graph, reachable
+    prog = run.prog
+    edges = call_graph(prog)
+    n = 0
+    for fi in sorted(reachable(edges, roots), key=lambda f: f.fq):
+        if isinstance(fi.node, ast.Lambda):
+            continue
+        memo = [d for d in fi.decorators if prog.dotted(fi.module, d.func if isinstance(d, ast.Call) else d) in CACHE_DECORATORS]
+        if memo and not may_return_nodes(prog, fi):
+            memo = []       # a memoised pure helper whose results hold no node: nothing shared that the engine mutates
+        if memo or fi in roots:
+            n += 1
+            run.ob(rule, f"{fi.fq}/not-memoised", not memo, f"{fi.module.rel}:{fi.lineno}", what,
+                   f"decorated with @{ast.unparse(memo[0])}: the cached nodes are returned again for the same argument and mutated in place by the engine"
+                   if memo else "", mech="decorator census over the functions reachable from the property's decoders")
+    return n
+
+
+def fresh_hits(run, pid, rule="R0-fresh-hits"):
+    """The spans a property states are relative to the data of THAT call; scan_node shifts and re-parents the returned nodes in
+    place, so the decoders anchored for the property (and their helpers) must not be memoised."""
+    import json
+    from pathlib import Path
+
+    from ..model import need
+    prog = run.prog
+    files = set()
+    for line in (Path(__file__).resolve().parents[2] / "properties.jsonl").read_text().splitlines():
+        if line.strip():
+            d = json.loads(line)
+            if d["id"] == pid:
+                files = set(d["anchors"]["files"])
+    mods = [m for m in prog.modules.values() if m.rel in files]
+    need(mods, f"anchor: none of the anchor files of {pid} was parsed")
+    roots = [fi for fi in prog.decorated_decoders() if fi.module in mods]
+    if any(m.rel.endswith("/keyword.py") for m in mods):
+        roots.append(prog.fn("keyword.find_keywords"))
+    need(roots, f"anchor: no decoder entry point in the anchor files of {pid}")
+    n = check_not_memoised(run, rule, roots, "every call of the decoder (and of its helpers) builds its nodes afresh, so the reported span is the one of this call")
+    run.floor(rule, len(roots))
+    return n
+
+
+
+def regex_patterns(prog):
+    """every pattern the program can hand to the regex engine that folds to a constant: module-level *_RE constants and the
+    constant pattern arguments of regex / re calls.  [(key, where, pattern)] keyed by constant name or by function and ordinal."""
+    out, seen = [], set()
+    for m in sorted(prog.modules.values(), key=lambda m: m.rel):
+        for st in m.tree.body:
+            if isinstance(st, (ast.Assign, ast.AnnAssign)) and st.value is not None:
+                tg = st.targets[0] if isinstance(st, ast.Assign) else st.target
+                if isinstance(tg, ast.Name) and ("RE" in tg.id.split("_") or "REGEX" in tg.id.split("_")):
+                    v = prog.try_fold(m, st.value)
+                    if isinstance(v, (bytes, str)):
+                        out.append((f"{m.short}.{tg.id}", f"{m.rel}:{st.lineno}", v))
+                        seen.add(v if isinstance(v, bytes) else v.encode("latin-1"))
+        ordinals = {}
+        for node in ast.walk(m.tree):
+            if isinstance(node, ast.Call) and node.args:
+                d = prog.dotted(m, node.func) or ""
+                if d.split(".")[0] in ("regex", "re") and d.split(".")[-1] in ("compile", "search", "match", "fullmatch", "finditer", "findall", "sub", "subn", "split"):
+                    v = prog.try_fold(m, node.args[0])
+                    if isinstance(v, (bytes, str)):
+                        vb = v if isinstance(v, bytes) else v.encode("latin-1")
+                        if vb in seen:
+                            continue
+                        fi = m.func_of_node(node)
+                        owner = fi.fq if fi else m.short
+                        ordinals[owner] = ordinals.get(owner, 0) + 1
+                        out.append((f"{owner}/pattern#{ordinals[owner]}", f"{m.rel}:{node.lineno}", v))
+    return out
